@@ -1,15 +1,149 @@
-/- T2N.Model.Fr — STUB (to be replaced by the model of src/lang/fr/mod.rs) -/
+/-
+  T2N.Model.Fr — model of `src/lang/fr/mod.rs` (struct `French`).
+
+  French is the only interpreter that uses `DigitString::flags`: a word can block the units
+  "un" … "six" for the next word (`Excludable`, bits 1,2,4,8,16,32; `UN_SIX = 63`).
+  `Excludable::from_bits_truncate(b.flags)` keeps the bits below 64; every mask tested below is
+  contained in 63, so `Guard.flag m` (`flags &&& m == m`) is the same test.
+
+  No lemma occurs in two arms of the `match`, hence an arm whose `if` guard fails falls through to
+  `_ => Err(Error::NaN)` (`Act.when`).
+-/
 import T2N.Model.Lang
 
 namespace T2N.Fr
 
+/-- `lemmatize`: blind removal of the `s` ending (all of them: `trim_end_matches('s')`), except for "trois". -/
+def lemmatize (w : Word) : Word :=
+  if endsWith w w!"s" && w != w!"trois" then trimEndBy (· == 's') w else w
+
+/-! `Excludable` -/
+def UN : Nat := 1
+def DEUX : Nat := 2
+def TROIS : Nat := 4
+def QUATRE : Nat := 8
+def CINQ : Nat := 16
+def SIX : Nat := 32
+def UN_SIX : Nat := 63
+
+/-- blockable units: `if !blocked.contains(m) => b.put(d)` -/
+def unit (m d : Nat) : Act := .when (.neg (.flag m)) (.put [d])
+
+/-- "dix": `to_block = UN_SIX` for every branch -/
+def dix : Act :=
+  .block UN_SIX
+    (.ite (.peekEq 2 [6, 0]) (.fput [7, 0])
+      (.ite (.peekEq 2 [8, 0]) (.fput [9, 0]) (.put [1, 0])))
+
+/-- "onze" … "seize": `match b.peek(2) { b"60" => b.fput(7u), b"80" => b.fput(9u), _ => b.put(1u) }` -/
+def teen (u : Nat) : Act :=
+  .ite (.peekEq 2 [6, 0]) (.fput [7, u])
+    (.ite (.peekEq 2 [8, 0]) (.fput [9, u]) (.put [1, u]))
+
+/-- "vingt": the `quatre-vingt` branch does not set `to_block` -/
+def vingt : Act :=
+  .ite (.or (.peekEq 2 [0, 4]) (.peekEq 2 [4])) (.fput [8, 0]) (.block UN (.put [2, 0]))
+
+/-- tens: `to_block = UN; b.put(d0)` -/
+def ten (d : Nat) : Act := .block UN (.put [d, 0])
+
+def cent : Act :=
+  .ite (.and (.and (.or (.peekLen 2 1) (.peekLt 2 [2, 0])) (.neg (.peekEq 2 [1]))) (.neg (.peekEq 2 [0, 1])))
+    (.shift 2) (.fail .overlap)
+
+def mille : Act :=
+  .when (.rangeFree 3 5) (.ite (.peekEq 2 [1]) (.fail .overlap) (.shift 3))
+
+def million : Act := .when (.rangeFree 6 8) (.shift 6)
+
+/-- "et" never follows "dix" (the `DEUX` bit is only ever set by "dix"). -/
+def et : Act := .when (.and (.lenGe 2) (.neg (.flag DEUX))) (.fail .incomplete)
+
+/-- lemma ↦ instruction (the `match lemmatize(num_func) { … }` of `apply`) -/
+def vocab : List (Word × Act) := [
+  (w!"zéro", .put [0]),
+  (w!"un", unit UN 1), (w!"unième", unit UN 1),
+  (w!"premier", .when .empty (.put [1])), (w!"première", .when .empty (.put [1])),
+  (w!"deux", unit DEUX 2), (w!"deuxième", unit DEUX 2),
+  (w!"trois", unit TROIS 3), (w!"troisième", unit TROIS 3),
+  (w!"quatre", unit QUATRE 4), (w!"quatrième", unit QUATRE 4),
+  (w!"cinq", unit CINQ 5), (w!"cinquième", unit CINQ 5),
+  (w!"six", unit SIX 6), (w!"sixième", unit SIX 6),
+  (w!"sept", .put [7]), (w!"septième", .put [7]),
+  (w!"huit", .put [8]), (w!"huitième", .put [8]),
+  (w!"neuf", .put [9]), (w!"neuvième", .put [9]),
+  (w!"dix", dix), (w!"dixième", dix),
+  (w!"onze", teen 1), (w!"onzième", teen 1),
+  (w!"douze", teen 2), (w!"douzième", teen 2),
+  (w!"treize", teen 3), (w!"treizième", teen 3),
+  (w!"quatorze", teen 4), (w!"quatorzième", teen 4),
+  (w!"quinze", teen 5), (w!"quinzième", teen 5),
+  (w!"seize", teen 6), (w!"seizième", teen 6),
+  (w!"vingt", vingt), (w!"vingtième", vingt),
+  (w!"trente", ten 3), (w!"trentième", ten 3),
+  (w!"quarante", ten 4), (w!"quarantième", ten 4),
+  (w!"cinquante", ten 5), (w!"cinquantième", ten 5),
+  (w!"soixante", ten 6), (w!"soixantième", ten 6),
+  (w!"septante", ten 7), (w!"septantième", ten 7),
+  (w!"huitante", ten 8), (w!"huitantième", ten 8),
+  (w!"octante", ten 8), (w!"octantième", ten 8),
+  (w!"nonante", ten 9), (w!"nonantième", ten 9),
+  (w!"cent", cent), (w!"centième", cent),
+  (w!"mille", mille), (w!"mil", mille), (w!"millième", mille),
+  (w!"million", million), (w!"millionième", million),
+  (w!"milliard", .shift 9), (w!"milliardième", .shift 9),
+  (w!"et", et)
+]
+
+/-- `get_morph_marker` -/
+def morph (w : Word) : Marker :=
+  if endsWith w w!"ème" then .ordinal .eme
+  else if endsWith w w!"èmes" then .ordinal .emes
+  else if endsWith w w!"ier" then .ordinal .er
+  else if endsWith w w!"iers" then .ordinal .ers
+  else if endsWith w w!"ière" then .ordinal .ere
+  else if endsWith w w!"ières" then .ordinal .eres
+  else .none
+
+/-- `apply`. The fuel bounds the compound recursion `apply → exec_group → apply`; a part of a
+`-`-split never contains `-`, so depth 2 is never exceeded (`applyFuel 0` is unreachable).
+
+The compound branch returns early: it neither resets `b.flags` on failure nor looks at
+`get_morph_marker(num_func)`; it copies the flags and (if ordinal) the marker of the sub-builder. -/
+def applyFuel : Nat → Word → DS → Res × DS
+  | 0, _, b => (some .nan, b)
+  | fuel + 1, w, b =>
+    if w.contains '-' then
+      match execGroup (applyFuel fuel) (splitOnChar '-' w) with
+      | .ok ds => mergeGroup b ds true ds.marker
+      | .error e => (some e, b)
+    else
+      let act := (vocab.lookup (lemmatize w)).getD (.fail .nan)
+      let (r, b', toBlock) := act.exec b
+      let marker := morph w
+      if r.isNone then
+        let b' := { b' with flags := toBlock }
+        (r, if marker.isNone then b' else { b' with marker := marker, frozen := true })
+      else
+        (r, { b' with flags := 0 })
+
+def apply : Word → DS → Res × DS := applyFuel 2
+
+/-- `apply_decimal` is `apply`. -/
+def applyDecimal : Word → DS → Res × DS := apply
+
+/-- `vocabulary::INSIGNIFICANT` -/
+def insignificant : List Word := [
+  w!"alors", w!"bien", w!"c'est", w!"encore", w!"ensuite", w!"et", w!"euh", w!"heu", w!"ha",
+  w!"ah", w!"hu", w!"hum", w!"moins", w!"ok", w!"oui", w!"plus", w!"puis", w!"voilà"]
+
 def lang : Lang where
   code := "fr"
-  apply := fun _ b => (some .nan, b)
-  applyDecimal := fun _ b => (some .nan, b)
-  morph := fun _ => .none
-  isDecSep := fun _ => false
+  apply := apply
+  applyDecimal := applyDecimal
+  morph := morph
+  isDecSep := fun w => w == w!"virgule"
   decMark := ','
-  isLinking := fun _ => false
+  isLinking := fun w => insignificant.contains w
 
 end T2N.Fr
